@@ -286,6 +286,27 @@ def check_runs(ctx, finder: FuncInfo):
             seen.add("after")
             ok = isinstance(tv, TupleV) and len(tv.items) == 2 and isinstance(tv.items[1], Num) and nf_equal(tv.items[1].nf, lift(N))
             ctx.check(ok, rule, "final-run", e.loc(), "a run still open at the end is recorded as (start, len(indicator))", found=repr(tv), expected="(start, n)")
+            # ... and only then: the facts in force say that the start marker does NOT have its idle value after the loop
+            from .common import both_polarities
+
+            idle_fact = None
+            for c_, v_ in both_polarities(e.facts):
+                txt_ = repr(c_)
+                if any(f"{lp.lid}.{n_}.out" in txt_ for n_ in svars):
+                    if txt_.startswith("is(") and txt_.rstrip(")").endswith("None"):
+                        idle_fact = v_ if any(isinstance(pre.get(n_), NoneV) for n_ in svars) else (not v_)
+                    elif c_.t[0] == "cmp":
+                        for n_ in svars:
+                            pv_ = pre.get(n_)
+                            at_ = [x_ for x_ in atoms_of(c_.t[2]).values() if x_.kind == "lc" and x_.args[0] == f"{lp.lid}.{n_}.out"]
+                            if at_ and isinstance(pv_, Num) and pv_.nf is not None:
+                                val_ = subst(c_.t[2], {at_[0].key: pv_.nf}).as_const()
+                                if val_ is not None:
+                                    holds_at_idle = {"<0": val_ < 0, "<=0": val_ <= 0, "==0": val_ == 0, "!=0": val_ != 0}[c_.t[1]]
+                                    idle_fact = v_ if holds_at_idle else (not v_)
+                    if idle_fact is not None:
+                        break
+            ctx.check(idle_fact is False, rule, "final-run|guard", e.loc(), "the final run is recorded only when a run is still open after the loop (the start marker is not idle)", found=f"marker idle: {idle_fact}", expected="marker not idle")
         # a path that sets start = i without appending (False->True)
         be = lp.info["body_env"]
         if not inloop and svars and any(isinstance(be.get(n), Num) and be.get(n).nf is not None and nf_equal(be.get(n).nf, lv) for n in svars):
